@@ -22,7 +22,7 @@ import (
 // shim packages, and the shim packages themselves (sources under /verif/overlay) are added to the repository
 // module under vfhook/. Nothing under /repo is touched. Returns the overlay JSON path and the rewritten file count.
 func vfgen(work string) (string, int, error) {
-	const repo = "/repo"
+	repo := repoDir()
 	dir := filepath.Join(work, "overlay")
 	os.RemoveAll(dir)
 	if err := os.MkdirAll(dir, 0o755); err != nil {
@@ -111,7 +111,7 @@ func vfgen(work string) (string, int, error) {
 // worker twice: plain and -race).
 func c06Plan(tier string) *harness.Plan {
 	plan := sx.Plan(tier)
-	work := filepath.Join(root, ".work")
+	work := filepath.Join(root, ".work", os.Getenv("VF_WORK_SUB"))
 	plan.Prepare = func(opt *harness.Options) error {
 		os.RemoveAll(filepath.Join(work, "racelog"))
 		os.MkdirAll(filepath.Join(work, "racelog"), 0o755)
@@ -127,7 +127,8 @@ func c06Plan(tier string) *harness.Plan {
 			out  string
 			args []string
 		}{{"sx", nil}, {"sx-race", []string{"-race"}}} {
-			args := append([]string{"build", "-tags", "verif", "-overlay", ov}, v.args...)
+			args := append([]string{"build", "-tags", "verif", "-overlay", ov}, modArgs()...)
+			args = append(args, v.args...)
 			args = append(args, "-o", filepath.Join(work, v.out), "./cmd/sx")
 			cmd := exec.Command(gobin, args...)
 			cmd.Dir = root
